@@ -1359,10 +1359,22 @@ def check_required_steps(ck, rule, prog, body, steps):
     """steps: list of (label, predicate(term) -> bool).  Every success path of `body` must pass a call satisfying each predicate.
     For calls inside loops the loop header counts (a loop may run zero times)."""
     loops = body.natural_loops()
+    from prov import Prov
+    pv_ = Prov(prog, inline=False)
     for label, pred in steps:
         blocks = set()
         for bi, t in body.calls():
-            if pred(t):
+            hit = pred(t)
+            if not hit and len(t.args) >= 2:
+                # the step is performed inside a closure handed to this call (for_each / try_for_each / map / ...): the adaptor call
+                # is the step site (an iterator may be empty, exactly as a loop may run zero times)
+                for a in t.args[1:]:
+                    cb = prog.bodies.get(pv_.closure_of_operand(body, a) or "")
+                    if cb is not None and cb.kind == "Closure":
+                        nest = [x for x in prog.bodies.values() if x.id == cb.id or x.id.startswith(cb.id + "::{closure")]
+                        if any(pred(ct) for fb in nest for _, ct in fb.calls()):
+                            hit = True
+            if hit:
                 blocks.add(bi)
                 # innermost..outermost loop headers containing the call
                 for h, bl in loops.items():
@@ -1698,4 +1710,48 @@ def check_getters(ck, rule, prog, file_rx, floor=0):
         ck.ob(rule, "getter/%s" % b.short, g["verdict"], "%s returns %s" % (b.short, ("its field `%s`" % g["field"]) if g["verdict"] else ("the field `%s` (same type) instead of `%s`" % ("/".join(sorted(g["got"])), g["field"]))), where=b.where())
     if floor:
         ck.floor(rule, "accessors named after a field", n, floor)
+    return n
+
+
+def ctor_findings(prog, file_rx=r".*"):
+    """struct literals `S { f: <value>, .. }` in functions that have a parameter NAMED like the field f: the value stored in f
+    derives from that parameter and not (only) from another parameter of the same type.
+    list of dict(body, adt, field, want (param name), got (param names), verdict)"""
+    from prov import Prov, params_of
+    pv = Prov(prog, inline=False)
+    out = []
+    for b in sorted(prog.production(), key=lambda b: b.id):
+        if b.kind not in ("Fn", "AssocFn") or not re.search(file_rx, b.file or "") or not b.arg_names:
+            continue
+        byname = {nm: p for p, nm in b.arg_names.items()}
+        for pos, st in b.stmts():
+            if not (st.k == "assign" and st.rv["k"] == "agg" and st.rv.get("agg") == "adt" and st.rv.get("fields")):
+                continue
+            adt = st.rv.get("adt", "")
+            if adt not in prog.adts:
+                continue
+            for f, o in zip(st.rv["fields"], st.rv["ops"]):
+                if f not in byname:
+                    continue
+                ps = params_of(pv.of_operand(b, o), b.id)
+                want = byname[f]
+                if want in ps:
+                    verdict = True
+                else:
+                    same = [p for p in ps if b.locals[p]["s"] == b.locals[want]["s"]]
+                    verdict = False if same else None
+                out.append({"body": b, "adt": adt, "field": f, "want": f, "got": sorted(b.arg_names.get(p, "_%d" % p) for p in ps), "verdict": verdict, "line": st.line})
+    return out
+
+
+def check_ctors(ck, rule, prog, file_rx, floor=0):
+    n = 0
+    for g in ctor_findings(prog, file_rx):
+        if g["verdict"] is None:
+            continue
+        n += 1
+        b = g["body"]
+        ck.ob(rule, "ctor/%s/%s" % (b.short, g["field"]), g["verdict"], "%s stores %s in the field `%s`" % (b.short, ("its parameter `%s`" % g["want"]) if g["verdict"] else ("the parameter `%s` (same type) instead of `%s`" % ("/".join(g["got"]), g["want"])), g["field"]), where=b.where(g["line"]))
+    if floor:
+        ck.floor(rule, "constructor fields named after a parameter", n, floor)
     return n
